@@ -11,7 +11,7 @@ import z3
 from . import sym, extract
 from .sym import SVal, SInt, SBool, SOpt, SEnum, SSeq, Unsupported, _ie, _be, is_sym, merge
 from .spec import SSet, SpecFn, empty_set
-from .engine import (Engine, ReturnEx, BreakEx, ContinueEx, PathEnd, PyRaise, Opaque, HList, HSetList, HSymList,
+from .engine import (PyLong, STupleSeq, HRefTable, Engine, ReturnEx, BreakEx, ContinueEx, PathEnd, PyRaise, Opaque, HList, HSetList, HSymList,
                      HIter, HMap, HFile, SObj, Closure, BoundMethod, Frame, Loop, Contract, call_by_names, conjuncts, MISSING, ConstFn, SUnion, HEnum, MethodOf, SuperProxy)
 
 
@@ -128,6 +128,15 @@ class Interp(Engine):
         if isinstance(v, SObj):
             c = SObj()
             c.__dict__["_f"].update(v.__dict__["_f"])
+            # entry values of the mutable parts most contracts talk about
+            fp = v.__dict__["_f"].get("fp")
+            if isinstance(fp, HFile):
+                c.__dict__["_f"]["pos"] = fp.pos
+                c.__dict__["_f"]["data"] = fp.seq
+            for fld, nm in (("internObjects", "nrefs"), ("internStrings", "nstrs")):
+                t = v.__dict__["_f"].get(fld)
+                if isinstance(t, HRefTable):
+                    c.__dict__["_f"][nm] = t.length
             return c
         if isinstance(v, HSetList):
             return SObj(set=v.sset)
@@ -213,6 +222,9 @@ class Interp(Engine):
             self.list_append(lst, seq.get(z3.IntVal(i)))
 
     def list_append(self, lst, x):
+        if isinstance(lst, HRefTable):
+            lst.tail.append([z3.simplify(lst.n0 + len(lst.tail) + lst.extra), x])
+            return
         if isinstance(lst, HList):
             lst.items.append(x)
         elif isinstance(lst, HSymList):
@@ -266,6 +278,12 @@ class Interp(Engine):
             raise Unsupported("assignment target %s" % type(t).__name__)
 
     def setitem(self, base, idx, v, node):
+        if isinstance(base, HRefTable):
+            k = base.slot_of(idx)
+            if k is not None:
+                base.tail[k][1] = v
+                return
+            raise Unsupported("store into the reference table at an index that is not one of the slots appended in this call")
         if isinstance(base, HList):
             if is_sym(idx):
                 raise Unsupported("store at symbolic index of a concrete-length list")
@@ -275,6 +293,11 @@ class Interp(Engine):
                 raise PyRaise(IndexError, "list assignment index out of range", node)
             return
         if isinstance(base, dict) and getattr(base, "_pyvc_local", False):
+            if is_sym(idx) or isinstance(idx, Opaque):
+                if not hasattr(base, "_symitems"):
+                    base._symitems = []
+                base._symitems.append((idx, v))      # write-only side table entry under an unmodelled key
+                return
             base[idx] = v
             return
         raise Unsupported("item assignment on %r" % type(base).__name__)
@@ -483,6 +506,10 @@ class Interp(Engine):
             return SEnum(idx, cur.table)
         if isinstance(cur, SUnion):
             return cur
+        if isinstance(cur, PyLong):
+            return PyLong(self.fresh_int(name))
+        if isinstance(cur, STupleSeq) or (isinstance(cur, tuple) and len(cur) == 0 and name in ("ret",)):
+            return STupleSeq(sym.ZSeq(z3.Const(self.fresh(name + "!seq"), z3.SeqSort(z3.IntSort()))))
         if isinstance(cur, (HSetList, HSymList, HIter, HList, HMap, SObj)):
             return cur      # heap objects are havocked in place (see havoc_heap)
         raise Unsupported("cannot havoc loop variable %r of kind %s; declare it in the loop contract" % (name, type(cur).__name__))
@@ -498,6 +525,18 @@ class Interp(Engine):
             p = z3.Int(self.fresh(name + "!pos"))
             self.run.pc.append(z3.And(p >= 0, p <= obj.seq.len_e()))
             obj._pos = SInt(p)
+        elif isinstance(obj, HFile):
+            p = z3.Int(self.fresh(name + "!pos"))
+            self.run.pc.append(z3.And(p >= 0, p <= obj.seq.len_e()))
+            obj._pos = SInt(p)
+        elif isinstance(obj, HRefTable):
+            g = z3.Int(self.fresh(name + "!extra"))
+            self.run.pc.append(g >= _ie(obj.extra))
+            obj.extra = g
+        elif isinstance(obj, SObj):
+            for k2, v2 in list(obj.__dict__["_f"].items()):
+                if isinstance(v2, (HFile, HRefTable, HIter, HSymList, HSetList)):
+                    self.havoc_heap(v2, "%s.%s" % (name, k2), mutated)
         elif isinstance(obj, HList):
             if mutated:
                 raise Unsupported("a list of concrete length (%s) is mutated inside a cut loop; model it as a symbolic list" % name)
@@ -523,7 +562,7 @@ class Interp(Engine):
                 obj = f.lookup(nm)
             except PyRaise:
                 continue
-            if isinstance(obj, (HSetList, HSymList, HIter, HList)) and id(obj) not in seen:
+            if isinstance(obj, (HSetList, HSymList, HIter, HList, HFile, HRefTable, SObj)) and id(obj) not in seen:
                 seen.add(id(obj))
                 if nm in mutated_names:
                     self.havoc_heap(obj, nm, True)
@@ -870,7 +909,7 @@ class Interp(Engine):
             cls = base.obj.__dict__["_f"].get("__class__")
             mro = list(cls.__mro__)
             return self.class_attr(base.obj, cls, mro[mro.index(base.after) + 1:], name, node)
-        if isinstance(base, (HList, HSymList, HSetList, HIter, HMap, SSeq, SSet, BinStr, HFile)):
+        if isinstance(base, (HList, HSymList, HSetList, HIter, HMap, SSeq, SSet, BinStr, HFile, HRefTable)):
             return BoundMethod(base, name)
         if isinstance(base, SEnum):
             return base.map(lambda t: getattr(t, name)).collapse()
@@ -903,6 +942,14 @@ class Interp(Engine):
         raise PyRaise(AttributeError, name, node)
 
     def instantiate(self, cls, args, kwargs, node, f):
+        if issubclass(cls, int) and len(args) == 1:
+            v = args[0]
+            if isinstance(v, PyLong):
+                v = v.v
+            if cls.__name__ == "LongTypeForPython3":
+                return PyLong(v)
+        if issubclass(cls, (str, bytes)) and len(args) == 1:
+            return Opaque(cls.__name__, cls)
         obj = SObj(__class__=cls)
         init = None
         for k in cls.__mro__:
@@ -929,6 +976,18 @@ class Interp(Engine):
             return Opaque(base.tag + "[]")
         if isinstance(idx, slice):
             return self.getslice(base, idx, node)
+        if isinstance(base, HRefTable):
+            k = base.slot_of(self.as_int(idx, node))
+            if k is not None:
+                return base.tail[k][1]
+            ie = _ie(idx)
+            if self.decide(z3.And(ie >= 0, ie < base.n0)):
+                return SInt(z3.Function("REF!" + base.name, z3.IntSort(), z3.IntSort())(ie))     # abstract entry of the prefix
+            if self.decide(z3.And(ie >= base.n0, ie < _ie(base.length))):
+                raise Unsupported("read of a reference-table entry stored during this call at a symbolic index")
+            if self.decide(z3.And(ie < 0, ie >= -_ie(base.length))):
+                raise Unsupported("negative index into the reference table")
+            raise PyRaise(IndexError, "list index out of range", node)
         if isinstance(base, HMap):
             k = self.as_int(idx, node)
             if self.decide(base.contains(k).e):
@@ -1160,6 +1219,20 @@ class Interp(Engine):
                 except Exception as ex:
                     raise Unsupported("method call on a table entry raised %r" % (ex,))
             return fn.map(_one).collapse()
+        if isinstance(fn, SEnum) and any(isinstance(t, MethodOf) for t in fn.table):
+            groups = {}
+            for i, t in enumerate(fn.table):
+                if isinstance(t, MethodOf):
+                    groups.setdefault(id(t.func), (t, []))[1].append(i)
+            items = sorted(groups.values(), key=lambda g: g[1][0])
+            for t, idxs in items[:-1]:
+                if self.decide(z3.Or(*[fn.idx == i for i in idxs])):
+                    return self.call(t, args, kwargs, node, f)
+            t, idxs = items[-1]
+            self.run.pc.append(z3.Or(*[fn.idx == i for i in idxs]) if not self.feasible(self.run.pc, z3.Not(z3.Or(*[fn.idx == i for i in idxs]))) else z3.BoolVal(True))
+            if self.decide(z3.Or(*[fn.idx == i for i in idxs])):
+                return self.call(t, args, kwargs, node, f)
+            raise Unsupported("call through a symbolic table entry that is not a method")
         if isinstance(fn, SEnum):
             # table of formatter functions indexed symbolically: results are text only
             self.assumed.add("functions selected by a symbolic table index (opcode_arg_fmt formatters) are pure and return text (opaque)")
@@ -1202,6 +1275,10 @@ class Interp(Engine):
         nm = getattr(fn, "__name__", repr(fn))
         if fn in (repr, str, format, hex, oct, bin, ascii) or nm in ("join", "format", "ljust", "rjust", "strip", "lstrip", "rstrip"):
             return Opaque(nm)
+        if nm == "write" and getattr(fn, "__self__", None) in (sys.stderr, sys.stdout):
+            self.effects = getattr(self, "effects", None) or []
+            self.effects.append(("write", "stderr" if fn.__self__ is sys.stderr else "stdout", getattr(node, "lineno", 0)))
+            return None
         raise Unsupported("call of %s with symbolic arguments (line %d)" % (nm, getattr(node, "lineno", 0)))
 
     def bind_args(self, argspec, defaults, kwdefaults, args, kwargs, node, fname):
@@ -1450,7 +1527,7 @@ class Interp(Engine):
 
     # ------------------------------------------------------------------------ methods on modelled objects
     def call_method(self, recv, name, args, kwargs, node, f):
-        if isinstance(recv, (HList, HSymList, HSetList)):
+        if isinstance(recv, (HList, HSymList, HSetList, HRefTable)):
             if name == "append":
                 self.list_append(recv, args[0])
                 return None
@@ -1509,7 +1586,8 @@ class Interp(Engine):
             raise Unsupported("method %s on bin() of a symbolic value" % name)
         if isinstance(recv, SSeq):
             if name == "decode":
-                return Opaque("decoded-text")
+                self.assumed.add("bytes.decode(): the text is an unmodelled function of the bytes and the codec arguments (UTF-8 codec trusted)")
+                return Opaque("decoded-text", str, src=(recv, tuple(args), tuple(sorted(kwargs.items()))))
             raise Unsupported("method %s on a symbolic sequence" % name)
         raise Unsupported("method %s on %s" % (name, type(recv).__name__))
 
@@ -1644,6 +1722,8 @@ def _m_len(self, args, kwargs, node, f):
         return len(v.items)
     if isinstance(v, HSymList):
         return SInt(v.n)
+    if isinstance(v, HRefTable):
+        return v.length
     if isinstance(v, HSetList):
         raise Unsupported("len() of a list abstracted as a set")
     if isinstance(v, SEnum):
@@ -1771,6 +1851,21 @@ def _m_hasattr(self, args, kwargs, node, f):
 @model(getattr)
 def _m_getattr(self, args, kwargs, node, f):
     v, name = args[0], args[1]
+    if isinstance(name, SEnum) and isinstance(v, SObj):
+        # attribute chosen by a symbolic table lookup (dispatch by name)
+        def one(t):
+            if not isinstance(t, str):
+                return MISSING
+            try:
+                return self.getattr(v, t, node)
+            except PyRaise:
+                return MISSING
+        r = name.map(one)
+        if self.decide(r.cond_for(lambda t: t is MISSING)):
+            if len(args) > 2:
+                return args[2]
+            raise PyRaise(AttributeError, "dispatch target missing", node)
+        return r
     if is_sym(name):
         raise Unsupported("getattr with symbolic name")
     try:
@@ -1875,6 +1970,9 @@ def _m_type(self, args, kwargs, node, f):
         return v.pytype
     if isinstance(v, SInt):
         return int
+    if isinstance(v, PyLong):
+        import xdis.cross_types as _ct
+        return _ct.LongTypeForPython3
     if isinstance(v, SBool):
         return bool
     if isinstance(v, SSeq):
@@ -1922,6 +2020,20 @@ def _m_deepcopy(self, args, kwargs, node, f):
     return _deepcopy_value(args[0], {})
 
 
+@model(frozenset, set)
+def _m_setctor(self, args, kwargs, node, f):
+    if args and isinstance(args[0], (STupleSeq, tuple)) and (isinstance(args[0], STupleSeq) or any(is_sym(x) for x in args[0])):
+        kind = frozenset if node is not None and isinstance(getattr(node, "func", None), ast.Name) and node.func.id == "frozenset" else set
+        return Opaque(kind.__name__, kind, src=STupleSeq.of(args[0]))
+    if not args:
+        return set() if (node is not None and getattr(getattr(node, "func", None), "id", "") == "set") else frozenset()
+    try:
+        kind = frozenset if getattr(getattr(node, "func", None), "id", "") == "frozenset" else set
+        return kind(args[0])
+    except TypeError as ex:
+        raise PyRaise(TypeError, str(ex), node)
+
+
 @model(bool)
 def _m_bool(self, args, kwargs, node, f):
     if not args:
@@ -1935,6 +2047,8 @@ def _m_int(self, args, kwargs, node, f):
     if not args:
         return 0
     v = args[0]
+    if isinstance(v, PyLong) and len(args) == 1:
+        return v.v
     if isinstance(v, (SInt, SBool, SEnum)) and len(args) == 1:
         return self.as_int(v, node)
     if is_sym(v) or isinstance(v, Opaque):
@@ -1960,6 +2074,8 @@ def _m_ord(self, args, kwargs, node, f):
         if isinstance(v.length, int) and v.length == 1:
             return self.seq_get(v, 0, node)
         raise Unsupported("ord() of a symbolic sequence")
+    if isinstance(v, SEnum) and all(isinstance(t, str) and len(t) == 1 for t in v.table):
+        return v.map(ord).collapse()
     if is_sym(v):
         raise PyRaise(TypeError, "ord() expected string of length 1", node)
     try:
@@ -1968,10 +2084,16 @@ def _m_ord(self, args, kwargs, node, f):
         raise PyRaise(TypeError, str(ex), node)
 
 
+_CHR_TABLE = [chr(i) for i in range(256)]
+
+
 @model(chr)
 def _m_chr(self, args, kwargs, node, f):
     v = args[0]
     if is_sym(v):
+        ve = _ie(self.as_int(v, node))
+        if self.valid(z3.And(ve >= 0, ve < 256)):
+            return SEnum(ve, _CHR_TABLE)
         return Opaque("chr")
     return chr(v)
 
@@ -2153,11 +2275,15 @@ def _m_unpack(self, args, kwargs, node, f):
     out = []
     pos = 0
     for ch in body:
-        w = {"B": 1, "b": 1, "c": 1, "H": 2, "h": 2, "I": 4, "i": 4, "L": 4, "l": 4, "Q": 8, "q": 8}.get(ch)
+        w = {"B": 1, "b": 1, "c": 1, "H": 2, "h": 2, "I": 4, "i": 4, "L": 4, "l": 4, "Q": 8, "q": 8, "d": 8}.get(ch)
         if w is None or (order == "@" and ch in "lL"):
             raise Unsupported("struct format character %r" % ch)
         bs = [self._seq_elem(seq, z3.IntVal(pos + j)) for j in range(w)]
         pos += w
+        if ch == "d":
+            self.assumed.add("struct.unpack('<d'): the float is the IEEE-754 value of the 8 bytes (trusted); modelled as an opaque value tied to those bytes")
+            out.append(Opaque("float64", float, src=(seq, pos - 8)))
+            continue
         if ch == "c":
             b0 = bs[0]
             out.append(bytes([b0]) if isinstance(b0, int) else SSeq(1, lambda i, b0=b0: b0, kind="bytes"))
